@@ -109,7 +109,7 @@ type pkgT struct {
 	pkg   *types.Package
 }
 
-var groupPool = []string{"alpha", "beta", "gamma2", "δelta", "_x", "Eps", "zeta", "all"}
+var groupPool = []string{"alpha", "beta", "gamma2", "δelta", "_x", "Eps", "zeta", "all", "Mul", "chainA", "chainB"}
 
 // groupBody: the rules of one group at message version v. Groups never match the same AST node (the engine
 // reports only the first matching rule per node, so only then is "reports of the enabled groups" = "reports of
@@ -134,6 +134,14 @@ func groupBody(name string, v int) string {
 		return "\tm.Match(`pz1($x)`, `pz2($x, $_)`).Where(m[\"x\"].Const).Report(`" + tag + " const arg \"$x\" (100%)`)\n"
 	case "all":
 		return "\tm.Match(`return $x`).Report(`" + tag + " ret`)\n"
+	// The next three report a CONSTANT text (no group tag, no interpolation) on nodes that share their start
+	// position: nested products (one rule, two nodes), and a call chain vs. its leftmost call (two groups).
+	case "Mul":
+		return "\tm.Match(`$x * $y`).Report(`same text`).Suggest(`mul($x, $y)`)\n"
+	case "chainA":
+		return "\tm.Match(`legacy($x).then($y)`).Report(`same text`).Suggest(`modern($x, $y)`)\n"
+	case "chainB":
+		return "\tm.Match(`legacy($x)`).Report(`same text`)\n"
 	}
 	return ""
 }
@@ -154,6 +162,11 @@ func pg2(a, b interface{})   {}
 func pd1(x int) int          { return x }
 func pz1(x interface{})      {}
 func pz2(x, y interface{})   {}
+
+type chain struct{}
+
+func legacy(x int) chain        { return chain{} }
+func (c chain) then(y int) chain { return c }
 `
 
 var targets = map[string][]string{
@@ -169,6 +182,9 @@ func f(a, b int) int {
 	pz1(7)
 	pz1(a)
 	pz2("k", b)
+	_ = a * b * 3
+	legacy(1).then(2)
+	legacy(a).then(b).then(5)
 	if a == a {
 		return pd1(a + b)
 	}
@@ -191,6 +207,7 @@ func h() bool {
 	pg2(pb1("q"), 2)
 	pz1("c")
 	pd1(4)
+	legacy(pd1(2) * 3 * pd1(4)).then(0)
 	return "a" == "a"
 }
 `},
